@@ -139,13 +139,17 @@ def k2_queries(num, tier, only=None):
             continue
         for n in (cfg['k2_ns_light'] if cont in LIGHT else cfg['k2_ns']):
             for ts in ts_modes(n, tier):
-                for op in ops:
+                # the invariant must be inductive over EVERY method of the container (a method outside the property's own
+                # scope can still break the state the property's clauses rely on); the clauses are asserted on the scope
+                for op in plan.ops_of(cont):
                     for p in ([num, 0, 99] if num != 0 else [0, 99]):
+                        if p == num and op not in ops:
+                            continue
                         extra, tag = None, ''
                         if is_kf_case(num, cont) and p == num and op == 'insert':
                             extra = {'KF_TTL0': 0}; tag = '_ttlpos'  # the TTL == 0 case is the known-finding probe
                         qs.append(plan.k2_query(cont, op, n, p, ts, timeout=cfg['k2_timeout'], extra=extra, tag=tag))
-                    if is_kf_case(num, cont) and op == 'insert':
+                    if is_kf_case(num, cont) and op == 'insert' and op in ops:
                         q = plan.k2_query(cont, op, n, num, ts, timeout=cfg['k2_timeout'], extra={'KF_TTL0': 1}, tag='_ttl0')
                         q.meta['kf_probe'] = 'ut-ttl0'
                         qs.append(q)
@@ -171,6 +175,38 @@ def k1_queries(num, tier, only=None):
             q = plan.k1_query(cont, n, 2, num, ts, timeout=cfg['k1_timeout'], extra={'KF_TTL0': 1}, tag='_ttl0')
             q.meta['kf_probe'] = 'ut-ttl0'
             qs.append(q)
+    return qs
+
+
+def k5_queries(num, tier, only=None):
+    qs = []
+    heavy = ('lfu', 'lfuda', 'utmap', 'utset', 'tlru', 'utlru')
+    to = TIERS[tier]['k2_timeout'] * 2
+    if num == 18:
+        for cont in plan.CONTAINERS:
+            if only and cont not in only:
+                continue
+            ns = [2] if (tier == 'quick' or cont in heavy) else [2, 3]
+            for n in ns:
+                for rm in plan.RMETHODS:
+                    if tier == 'quick':
+                        rlens = [1] if (cont in heavy and rm == 'insert_range') else [2]
+                    else:
+                        rlens = [2] if cont in heavy else [2, 3]
+                    for rlen in rlens:
+                        for p in (18, 99):
+                            qs.append(plan.k5_query(cont, 1, n, p, rmethod=rm, rlen=rlen, timeout=to))
+    elif num == 15:
+        if not only or 'rr' in only:
+            for n in ([2, 3] if tier == 'quick' else [2, 3, 4]):
+                for p in (15, 99):
+                    qs.append(plan.k5_query('rr', 2, n, p, timeout=to))
+    elif num == 20:
+        for cont in ('utlru', 'utmap'):
+            if only and cont not in only:
+                continue
+            for p in (20, 99):
+                qs.append(plan.k5_query(cont, 3, 2, p, timeout=to * 2))
     return qs
 
 
@@ -202,7 +238,7 @@ def interpret(ev, num, queries, kind):
         if q.meta.get('kind') != kind:
             continue
         m = q.meta
-        groups.setdefault((m['cont'], m.get('op'), m['n'], m.get('k'), m['ts']), []).append(q)
+        groups.setdefault((m['cont'], m.get('op'), m['n'], m.get('k'), m['ts'], m.get('mode'), m.get('rmethod'), m.get('rlen')), []).append(q)
     failures = []
     for key, qs in sorted(groups.items(), key=lambda kv: str(kv[0])):
         wit_ok = True
@@ -243,7 +279,14 @@ def lift_and_replay(ev, num, q):
         vals = core.parse_history(core.cbmc_trace(q))
     if 'h_op' not in vals:
         return False, None, {'error': 'no history in trace'}
-    lines = core.history_lines(vals, m['k']) if m['kind'] == 'k1' else core.state_lines(vals, 2 if m['kind'] == 'k2x2' else 1)
+    if m['kind'] == 'k1':
+        lines = core.history_lines(vals, m['k'])
+    elif m['kind'] == 'k5' and m['mode'] == 1:
+        lines = core.state_lines(vals, m['rlen'], 'kind range %d %d' % (plan.RMETHODS[m['rmethod']], m['rlen']))
+    elif m['kind'] == 'k5' and m['mode'] == 3:
+        lines = core.state_lines(vals, 2, 'kind twin')
+    else:
+        lines = core.state_lines(vals, 2 if m['kind'] == 'k2x2' else 1)
     variant = 'san' if num == 8 else 'plain'
     ratio = q.defines.get('T_RATIO4')
     extra = ['-DT_RATIO4=%s' % ratio] if ratio is not None else []
@@ -256,11 +299,23 @@ def lift_and_replay(ev, num, q):
     open(path, 'w').write(hdr + '\n' + body)
     res = replay_history(path)
     fails = [f for f in res['fails'] if f[0] // 1000 == num]
-    reproduced = bool(fails) or (num == 8 and res['rc'] not in (0, 1))
+    reproduced = bool(fails) or (num == 8 and res.get('ub', False))
     info = {'history': path, 'query': q.name, 'replay_rc': res['rc'], 'clause_failures': fails[:6], 'reproduced': reproduced,
             'tail': res['out'][-600:]}
     ev.replays.append(info)
     return reproduced, path, info
+
+
+def spread_replay(ev, num, n):
+    exe = core.build_aux('spread', 'rr', n, 0, ts='no')
+    res = core.run_aux(exe)
+    bad = 'RR-SPREAD-FAIL' in res['out']
+    os.makedirs(os.path.join(ROOT, 'replays'), exist_ok=True)
+    path = os.path.join(ROOT, 'replays', 'C%02d-rr-spread-n%d.conc' % (num, n))
+    open(path, 'w').write('# cont=rr n=%d method=spread mid=0 kind=spread prop=%d\n%s\n' % (n, num, res['out'][-2000:]))
+    info = {'kind': 'victim histogram on the real build', 'capacity': n, 'rc': res['rc'], 'reproduced': bad, 'tail': res['out'][-500:]}
+    ev.replays.append(info)
+    return bad, path, info
 
 
 def replay_history(path):
@@ -281,10 +336,10 @@ def replay_history(path):
 def replay_file(pid, path):
     if path.endswith('.conc'):
         m = re.search(r'#\s*cont=(\w+) n=(\d+) method=(\w+) mid=(\d+) kind=(\w+) prop=(\d+)', open(path).read())
-        exe = core.build_aux(m.group(5), m.group(1), int(m.group(2)), int(m.group(4)))
+        exe = core.build_aux(m.group(5), m.group(1), int(m.group(2)), int(m.group(4)), ts=('no' if m.group(5) == 'spread' else 'yes'))
         res = core.run_aux(exe)
         print(res['out'][-3000:])
-        if 'ThreadSanitizer: data race' in res['out'] or 'NONLINEARIZABLE' in res['out']:
+        if 'ThreadSanitizer: data race' in res['out'] or 'NONLINEARIZABLE' in res['out'] or 'RR-SPREAD-FAIL' in res['out']:
             print('VIOLATION property=%s replay=%s' % (pid, path))
             return 1
         print('replay: no violation of %s reproduced' % pid)
@@ -292,7 +347,7 @@ def replay_file(pid, path):
     res = replay_history(path)
     print(res['out'])
     fails = [f for f in res['fails'] if f[0] // 1000 == res['prop']]
-    if fails or (res['prop'] == 8 and res['rc'] not in (0, 1)):
+    if fails or (res['prop'] == 8 and res.get('ub', False)):
         print('VIOLATION property=%s replay=%s' % (pid, path))
         return 1
     print('replay: no violation of %s reproduced' % pid)
@@ -443,7 +498,7 @@ def run_property(num, tier, seed, only=None):
                             'allocation failure; clocks beyond 2^40 ticks or decreasing; lfuda ratios other than 1/2'}
     pid = ev.pid
     known, _fixed = load_known()
-    qs = k2_queries(num, tier, only) + k1_queries(num, tier, only)
+    qs = k2_queries(num, tier, only) + k1_queries(num, tier, only) + k5_queries(num, tier, only)
     sys.stderr.write('%s %s: %d queries\n' % (pid, tier, len(qs)))
     validate_translation(ev, sorted({q.meta['cont'] for q in qs}), seed, tier)
     core.run_all(qs)
@@ -474,8 +529,44 @@ def finish(ev, num, tier, qs, known, extra_violations=()):
     pid = ev.pid
     k2_fail = interpret(ev, num, qs, 'k2')
     k1_fail = interpret(ev, num, qs, 'k1')
+    k5_fail = interpret(ev, num, qs, 'k5')
     violations = list(extra_violations)  # (path, text)
     reproduced_conts = set()
+    # ---- relational (two-copy) counterexamples: rebuild the state on the real build, run both copies there
+    for q, bad in k5_fail:
+        m = q.meta
+        if m['prop'] == 0:
+            ev.inconclusive.append('%s: invariant assertion(s) %s fail' % (q.name, bad[:4]))
+            continue
+        if m['mode'] == 2:
+            ok, path, info = spread_replay(ev, num, m['n'])
+            what = 'two different draws remove the same victim'
+        else:
+            ok, path, info = lift_and_replay(ev, num, q)
+            what = 'clauses %s' % (info.get('clause_failures', [])[:3] if isinstance(info, dict) else info)
+        if ok:
+            violations.append((path, '%s: %s; reproduced on the real build' % (q.name, what)))
+            reproduced_conts.add(m['cont'])
+        else:
+            msg = 'K5 counterexample of %s did not reproduce on the real build (%s)' % (q.name, str(info)[:300])
+            ev.inconclusive.append(msg)
+            print('INCONCLUSIVE property=%s %s' % (pid, msg))
+    # ---- C15 (iii): every resident position must be reachable as the victim (witness ids 99020.. of the rr insert step)
+    if num == 15:
+        for q in qs:
+            if q.meta.get('kind') == 'k2' and q.meta['prop'] == 99 and q.meta['cont'] == 'rr' and q.meta['op'] == 'insert' and q.result.status in ('pass', 'fail'):
+                immune = [k - 99020 for k, v in q.result.asserts.items() if isinstance(k, int) and 99020 <= k < 99030 and v == 'SUCCESS']
+                ev.obligations += q.meta['n']
+                ev.discharged += q.meta['n'] - len(immune)
+                if immune and 'rr' not in reproduced_conts:
+                    ok, path, info = spread_replay(ev, num, q.meta['n'])
+                    if ok:
+                        violations.append((path, '%s: no draw makes position(s) %s the victim (immune residents); confirmed by the victim histogram on the real build' % (q.name, immune)))
+                        reproduced_conts.add('rr')
+                    else:
+                        msg = '%s: position(s) %s unreachable as victim in the encoding but the real-build histogram shows them chosen' % (q.name, immune)
+                        ev.inconclusive.append(msg)
+                        print('INCONCLUSIVE property=%s %s' % (pid, msg))
     # ---- K1 counterexamples are public-API histories: replay them on the real build
     for q, bad in k1_fail:
         ok, path, info = lift_and_replay(ev, num, q)
@@ -504,7 +595,7 @@ def finish(ev, num, tier, qs, known, extra_violations=()):
         if cont in reproduced_conts or q.meta['prop'] != 0 or num in (0, 8):
             continue
         scope_ops = plan.k2_scope(num).get(cont, [])
-        for op2 in plan.ops_of(cont):
+        for op2 in scope_ops:
             xq = plan.k2_query(cont, q.meta['op'], q.meta['n'], num, q.meta['ts'], timeout=cfg['lift_timeout'], op2=op2)
             xq.meta['lift_of'] = q.name
             xq.meta['mem_gb'] = xq.meta['mem_gb'] * 2
